@@ -20,7 +20,8 @@ Section Denotation.
 Variables (q : request) (g : option string) (tbl : table).
 Hypothesis fresh : forall c, data_col q g c ->
   (forall x, String.eqb c (a_demean x) = false) /\ (forall x, String.eqb c (a_var x) = false) /\
-  (forall p, String.eqb c (a_cov p) = false) /\ (forall x, String.eqb c (a_mean x) = false) /\ String.eqb c a_count = false.
+  (forall p, String.eqb c (a_cov p) = false) /\ (forall x, String.eqb c (a_mean x) = false) /\ String.eqb c a_count = false /\
+  (forall x, String.eqb c (a_gmean x) = false).
 Hypothesis cov_alias_inj : forall p p', In p (r_cov q) -> In p' (r_cov q) -> a_cov p = a_cov p' -> p = p'.
 Hypothesis var_in_covar : forall c, In c (r_var q) -> In c (r_covar q).
 Hypothesis cov_in_covar : forall p, In p (r_cov q) -> In (fst p) (r_covar q) /\ In (snd p) (r_covar q).
